@@ -185,12 +185,11 @@ func record(seed int64, tier, out string) {
 			avail := true
 			switch x := r.Intn(10); {
 			case newCtx:
-				// new security context: the first reset of a history is integrity-only (type 3), the second ciphered (type 4), then alternating
+				// new security context: header types 3 and 4 ("with new security context") in turn - and types 2 and 1: a context can also be
+				// taken into use by an ordinary protected message (a mobility registration after a K_AMF change at handover); the counters
+				// start again all the same
 				nreset++
-				hdr = 4
-				if nreset%2 == 1 {
-					hdr = 3
-				}
+				hdr = []uint8{3, 4, 2, 1}[(hi+nreset-1)%4]
 			case x == 0:
 				avail = false // no security context: sent unchanged
 				hdr = 0
